@@ -146,7 +146,9 @@ def check_case(case) -> CaseResult:
     for i, o in enumerate(run.steps):
         op = o.op
         st_ = o.status
-        acts = [e for e in o.log if e[0] == "act"]
+        # the spawned child shares the Recorder; its own timers keep running (legitimately) while the
+        # parent is done / failed, so its actions are not "something the call did"
+        acts = [e for e in o.log if e[0] == "act" and not (e[1].startswith(("en:kid", "ex:kid")) or ".kid." in (str(e[2]) + "."))]
         recvs = [e for e in o.log if e[0] == "recv"]
         if prev is not None and prev.op[0] == "send!" and prev_status == "running":
             # the previous send was left unprocessed on purpose: what runs now belongs to it
